@@ -10,6 +10,7 @@ package main
 import (
 	"bufio"
 	"os"
+	"runtime"
 	"crypto/tls"
 	"fmt"
 	"io"
@@ -158,6 +159,15 @@ func driveSys(cfg *hx.RunCfg) error {
 		p.Transport.UseCompression = i == 0
 		proxies = append(proxies, p)
 		tlsProxies = append(tlsProxies, &sysProxy{name: p.Name, rt: &routeSpec{domain: domain, location: "/"}, kind: "tls", plugin: kind, coqP: coqP, po: po, comp: i == 0})
+	}
+	// 10: http proxy, http2http plugin, useCompression: overlapping exchanges on different connections
+	{
+		po := pluginOpts{localAddr: plain0, headers: map[string]string{}}
+		addHTTP("web10", &routeSpec{domain: "s10.c02.test"}, "", func(p *v1.HTTPProxyConfig) {
+			p.Plugin = v1.TypedClientPluginOptions{Type: v1.PluginHTTP2HTTP,
+				ClientPluginOptions: &v1.HTTP2HTTPPluginOptions{Type: v1.PluginHTTP2HTTP, LocalAddr: po.localAddr}}
+			p.Transport.UseCompression = true
+		})
 	}
 	// 8 stalling backend, 9 dead backend
 	stallAddr, err := be.add(c02Addr, 8)
@@ -342,6 +352,25 @@ func driveSys(cfg *hx.RunCfg) error {
 		}
 	}
 
+	// ---- overlapping exchanges on DIFFERENT connections through a compressed plugin proxy ----
+	// Connection A carries one large POST whose second half is held back while connections B1..Bk are opened
+	// and served (one request each, so the recorded keep-alive finding is not involved); then A completes.
+	// The snappy reader/writer of a work connection come from a sync.Pool: whether a wrongly recycled object
+	// is handed out again depends on the scheduler, so the rounds run with GOMAXPROCS(1) and are repeated.
+	{
+		prev := runtime.GOMAXPROCS(1)
+		rounds := 4
+		for round := 0; round < rounds; round++ {
+			cs, what := overlapRound(g, be, vaddr, 3)
+			cases = append(cases, cs)
+			st.dist["overlap:plugin+compression"]++
+			if what != "" {
+				st.fail("impl:overlapping-exchanges-disturbed:plugin+compression", what, cs)
+			}
+		}
+		runtime.GOMAXPROCS(prev)
+	}
+
 	// ---- dead backend -> not-found page; stalling backend -> 504 in bounded time, others unaffected ----
 	ask := func(req *userReq, timeout time.Duration) (*userResp, time.Duration) {
 		u, err := dialUser(vaddr, fmt.Sprintf("127.0.2.%d", 11+g.Intn(240)))
@@ -424,7 +453,7 @@ func driveSys(cfg *hx.RunCfg) error {
 		Tail: "Definition M := Eval vm_compute in mismatches check_case cases.\nPrint M.\n" +
 			counter("NSYSFWD", "is_fwd") + counter("NSYSCHAIN", "is_chain") + counter("NSYSHS2H", "(is_plug HrHS2H)") + counter("NSYSHS2HS", "(is_plug HrHS2HS)") +
 			counter("NSYSERR504", "is_err504") + counter("NSYSERR404", "is_err404") + counter("NUPGRADE", "(is_tunnel 1)") + counter("NCONNECT", "(is_tunnel 2)") +
-			counter("NKEEPPLAIN", "(is_keep false)") + counter("NKEEPCOMP", "(is_keep true)") + counter("NKEEPLOST", "keep_lost"),
+			counter("NOVERLAP", "is_overlap") + counter("NKEEPPLAIN", "(is_keep false)") + counter("NKEEPCOMP", "(is_keep true)") + counter("NKEEPLOST", "keep_lost"),
 	}
 	if err := cf.Write(cfg.Out); err != nil {
 		return err
@@ -480,4 +509,80 @@ func tunnelExchange(u *userConn, be *backends, head string, up, down []byte, ear
 	case <-time.After(5 * time.Second):
 	}
 	return
+}
+
+// overlapRound: see the comment at the call site.  Returns the COverlap case and, when the
+// property is violated, a description.
+func overlapRound(g *hx.Gen, be *backends, vaddr string, k int) (string, string) {
+	const bound = 6 * time.Second
+	body := g.Bytes(300000 + g.Intn(200000))
+	tag := fmt.Sprintf("%08x", g.R.Uint32())
+	be.script(&scripted{status: 200, framing: "cl", body: []byte("ok-" + tag), hdrs: []hdr{{"Content-Type", "text/plain"}}})
+	be.drain()
+	t0 := time.Now()
+	ua, err := dialUser(vaddr, fmt.Sprintf("127.0.2.%d", 11+g.Intn(240)))
+	if err != nil {
+		return "COverlap 0 0 [] [] 0 0 0", "dial failed: " + err.Error()
+	}
+	defer ua.close()
+	half := len(body) / 2
+	fmt.Fprintf(ua.c, "POST /overlap-a-%s HTTP/1.1\r\nHost: s10.c02.test\r\nContent-Type: application/octet-stream\r\nContent-Length: %d\r\n\r\n", tag, len(body))
+	if _, err := ua.c.Write(body[:half]); err != nil {
+		return "COverlap 0 0 [] [] 0 0 0", "write failed: " + err.Error()
+	}
+	time.Sleep(150 * time.Millisecond) // A's work connection is up and its first half on the way
+	bOK := 0
+	var bWhat []string
+	for i := 0; i < k; i++ {
+		ub, err := dialUser(vaddr, fmt.Sprintf("127.0.2.%d", 11+g.Intn(240)))
+		if err != nil {
+			bWhat = append(bWhat, "dial: "+err.Error())
+			continue
+		}
+		got, err := ub.do(simpleGet("s10.c02.test", fmt.Sprintf("/overlap-b%d-%s", i, tag)), 3*time.Second)
+		ub.close()
+		switch {
+		case err != nil:
+			bWhat = append(bWhat, fmt.Sprintf("B%d: %v", i+1, err))
+		case got.status != 200 || string(got.body) != "ok-"+tag:
+			bWhat = append(bWhat, fmt.Sprintf("B%d: status %d body %q", i+1, got.status, string(got.body[:min(len(got.body), 40)])))
+		default:
+			bOK++
+		}
+	}
+	aStatus := 0
+	aWhat := ""
+	if _, err := ua.c.Write(body[half:]); err != nil {
+		aWhat = "A: second half: " + err.Error()
+	} else if got, err := ua.recv("POST", 5*time.Second); err != nil {
+		aWhat = "A: " + err.Error()
+	} else {
+		aStatus = got.status
+		if got.status != 200 || string(got.body) != "ok-"+tag {
+			aWhat = fmt.Sprintf("A: status %d body %q", got.status, string(got.body[:min(len(got.body), 40)]))
+		}
+	}
+	// what the backend received for A
+	var aSeen []byte
+	deadline := time.After(1500 * time.Millisecond)
+collect:
+	for {
+		select {
+		case sn := <-be.seen:
+			if strings.HasPrefix(sn.target, "/overlap-a-") {
+				aSeen = sn.body
+				break collect
+			}
+		case <-deadline:
+			break collect
+		}
+	}
+	el := time.Since(t0)
+	cs := fmt.Sprintf("COverlap %d %d %s %s %d %d %d", k, aStatus, hx.HxS(bodyID(body)), hx.HxS(bodyID(aSeen)), bOK, el.Milliseconds(), bound.Milliseconds())
+	what := ""
+	if aWhat != "" || bOK != k || bodyID(aSeen) != bodyID(body) || el > bound {
+		what = fmt.Sprintf("http proxy + http2http plugin + useCompression: a %d-byte POST on connection A overlapping %d single-request connections: %s; B answered %d/%d %v; backend received %s of %s; %d ms",
+			len(body), k, aWhat, bOK, k, bWhat, bodyID(aSeen), bodyID(body), el.Milliseconds())
+	}
+	return cs, what
 }
